@@ -56,6 +56,8 @@ struct Slot {
     done: bool,
     weight: u32,
     polls: u64,
+    /// simulated time (ns since start) until which the thread is stuck in a blocking call
+    blocked_until: u64,
 }
 
 pub struct Inner {
@@ -189,7 +191,7 @@ pub fn spawn(name: &str, local_set: bool, body: impl FnOnce() -> BoxFut + 'stati
     with(|s| {
         let weight = s.weights.iter().find(|(p, _)| name.starts_with(p.as_str())).map(|(_, w)| *w).unwrap_or(8);
         let flag = Arc::new(WakeFlag { flag: AtomicBool::new(true), root: s.root.clone() });
-        s.threads.push(Slot { name: name.to_string(), fut: Some(fut), flag, done: false, weight, polls: 0 });
+        s.threads.push(Slot { name: name.to_string(), fut: Some(fut), flag, done: false, weight, polls: 0, blocked_until: 0 });
         let id = s.threads.len() - 1;
         s.log.sched(format_args!("spawn thread {name}"));
         id
@@ -201,10 +203,14 @@ pub fn is_done(id: usize) -> bool {
 }
 
 fn runnable(s: &Inner) -> Vec<usize> {
+    let now = match s.t0 {
+        Some(t0) => tokio::time::Instant::now().duration_since(t0).as_nanos() as u64,
+        None => 0,
+    };
     s.threads
         .iter()
         .enumerate()
-        .filter(|(_, t)| !t.done && t.fut.is_some() && t.flag.flag.load(Ordering::SeqCst))
+        .filter(|(_, t)| !t.done && t.fut.is_some() && t.flag.flag.load(Ordering::SeqCst) && t.blocked_until <= now)
         .map(|(i, _)| i)
         .collect()
 }
@@ -257,6 +263,29 @@ fn poll_thread(i: usize, why: &str) {
     } else {
         with(|s| s.threads[i].fut = Some(fut));
     }
+}
+
+/// The calling simulated thread is stuck in a blocking (non-async) call for `d`: the scheduler will
+/// not poll the thread — none of its tasks — until the simulated clock has moved on by `d`. This
+/// is what a CPU-bound or blocking handler does to a real worker thread.
+pub async fn block_current_thread(d: std::time::Duration) {
+    let until = now_ns() + d.as_nanos() as u64;
+    let root = with(|s| {
+        if let Some(i) = s.stack.last().copied() {
+            s.threads[i].blocked_until = until;
+        }
+        s.root.clone()
+    });
+    // Wakes that reach the thread while it is blocked are remembered in its flag but cannot make
+    // it runnable; make sure the scheduler looks again at the instant the thread unblocks.
+    tokio::spawn(async move {
+        tokio::time::sleep(d).await;
+        let w = root.waker.lock().unwrap().clone();
+        if let Some(w) = w {
+            w.wake();
+        }
+    });
+    tokio::time::sleep(d).await;
 }
 
 /// Synchronous preemption point (see module docs).
